@@ -186,8 +186,28 @@ func (r *c13CondRun) run() {
 		r.c.Fatalf("%s: expected exactly one string parameter (the id of the node the points belong to), found %d", f.Name, len(strParams))
 	}
 	isNodeParam := func(e ast.Expr) bool {
-		o := kit.ObjOf(info, e)
+		o := kit.ObjOf(info, st.Resolve(e))
 		return o != nil && o == strParams[0]
+	}
+	// pure helpers that receive the condition (filter predicates, comparison
+	// functions) are evaluated inline; the schedule chain stays symbolic
+	defer m.follow(st)()
+	st.ShouldInline = func(cf *kit.Func, call *ast.CallExpr) bool {
+		if cf == f || (r.aft != nil && (cf == r.aft.aft || cf == r.aft.ctor)) {
+			return false
+		}
+		if ch := m.chain; ch != nil && (cf == ch.aft || cf == ch.ctor) {
+			return false
+		}
+		for _, p := range cf.Params() {
+			if types.Identical(ruDeref(p.Type()), m.cond) {
+				return true
+			}
+		}
+		if rv := c14RecvVar(cf); rv != nil && types.Identical(ruDeref(rv.Type()), m.cond) {
+			return true
+		}
+		return false
 	}
 	scen := func(e ast.Expr) (string, bool) {
 		tag, ok := m.condField(f, e)
@@ -1205,12 +1225,90 @@ func c13Caller(c *kit.Ctx, m *ruModel, e, k *kit.Func, roles *c13Roles, runners,
 		}
 		s.ob = r4.Ob(k, s.call, name, oblig)
 	}
-	listClass := func(x ast.Expr) string {
+	// helpers on the way to the runner / inactive-marker are evaluated inline
+	reaches := map[*kit.Func]bool{}
+	for f := range runners {
+		reaches[f] = true
+	}
+	for f := range inactors {
+		reaches[f] = true
+	}
+	for round := 0; round < 4; round++ {
+		for _, f := range c.P.Funcs(ruClientPkg) {
+			if f.Body == nil || reaches[f] || f == e || f == k {
+				continue
+			}
+			ruInspectOwn(f, func(x ast.Node) bool {
+				if call, ok := x.(*ast.CallExpr); ok {
+					if cf := f.CalleeFunc(call); cf != nil && reaches[cf] {
+						reaches[f] = true
+					}
+				}
+				return true
+			})
+		}
+	}
+	opaque := ""
+	scan := func(f *kit.Func) {
+		ast.Inspect(f.Body, func(x ast.Node) bool {
+			var inner ast.Node
+			switch y := x.(type) {
+			case *ast.FuncLit:
+				inner = y.Body
+			case *ast.GoStmt:
+				inner = y.Call
+			case *ast.DeferStmt:
+				inner = y.Call
+			}
+			if inner == nil {
+				return true
+			}
+			ast.Inspect(inner, func(z ast.Node) bool {
+				if call, ok := z.(*ast.CallExpr); ok {
+					if cf := f.CalleeFunc(call); cf != nil && reaches[cf] && opaque == "" {
+						opaque = fmt.Sprintf("%s is called from a function literal / go / defer statement at %s, which the flow does not follow", cf.Name, f.At(call))
+					}
+				}
+				return true
+			})
+			return true
+		})
+	}
+	scan(k)
+	for f := range reaches {
+		if _, r := runners[f]; r {
+			continue
+		}
+		if _, r := inactors[f]; r {
+			continue
+		}
+		scan(f)
+	}
+	var curStd *kit.Std
+	isActionList := func(t types.Type) bool {
+		el := ruSliceElem(t)
+		_, isPtr := t.(*types.Pointer)
+		return el != nil && !isPtr && types.Identical(el, m.action)
+	}
+	// listClass: which of the rule's two lists an expression denotes: "A", "I",
+	// "?"; locals holding a list are tracked in the state ("lv:<id>").
+	listClass := func(x ast.Expr, s kit.S) string {
+		x = ast.Unparen(x)
+		if curStd != nil {
+			x = ast.Unparen(curStd.Resolve(x))
+		}
 		switch m.ruleField(k, x) {
 		case m.rActs:
 			return "A"
 		case m.rInacts:
 			return "I"
+		}
+		if id, ok := x.(*ast.Ident); ok {
+			if o := kit.ObjOf(k.Info(), id); o != nil {
+				if v := s.Get("lv:" + kit.VarID(o)); v != "" {
+					return v
+				}
+			}
 		}
 		return "?"
 	}
@@ -1232,6 +1330,13 @@ func c13Caller(c *kit.Ctx, m *ruModel, e, k *kit.Func, roles *c13Roles, runners,
 		parts = append(parts, what)
 		sort.Strings(parts)
 		return s.Set("calls", strings.Join(parts, ","))
+	}
+	report := func(o *kit.Ob, path []string, format string, a ...any) {
+		if opaque != "" {
+			o.Undecided("%s; otherwise: %s", opaque, fmt.Sprintf(format, a...))
+			return
+		}
+		o.Violation(format, a...).WithPath(path)
 	}
 	for _, ract := range []string{"T", "F"} {
 		for _, rchg := range []string{"T", "F"} {
@@ -1257,16 +1362,52 @@ func c13Caller(c *kit.Ctx, m *ruModel, e, k *kit.Func, roles *c13Roles, runners,
 				}
 				return []kit.S{s}
 			}
+			curStd = st
+			seenHelper := map[*kit.Func]bool{}
+			restore := m.follow(st)
+			st.ShouldInline = func(cf *kit.Func, call *ast.CallExpr) bool {
+				_, isRun := runners[cf]
+				_, isInact := inactors[cf]
+				return reaches[cf] && !isRun && !isInact
+			}
+			userNode := st.OnNode
+			st.OnNode = func(n ast.Node, s kit.S) []kit.S {
+				// list-valued locals: `run, clear := A, I` / `run, clear = clear, run`
+				if as, ok := n.(*ast.AssignStmt); ok && len(as.Lhs) == len(as.Rhs) && (as.Tok == token.ASSIGN || as.Tok == token.DEFINE) {
+					var keys, vals []string
+					for i, l := range as.Lhs {
+						id, isId := ast.Unparen(l).(*ast.Ident)
+						if !isId {
+							continue
+						}
+						o := kit.ObjOf(k.Info(), id)
+						if o == nil || !isActionList(o.Type()) {
+							continue
+						}
+						keys = append(keys, "lv:"+kit.VarID(o))
+						vals = append(vals, listClass(as.Rhs[i], s)) // all right-hand sides on the pre-state
+					}
+					for i := range keys {
+						s = s.Set(keys[i], vals[i])
+					}
+				}
+				return userNode(n, s)
+			}
 			st.OnCall = func(call *ast.CallExpr, n ast.Node, s kit.S) []kit.S {
-				cf := k.CalleeFunc(call)
+				cf := st.Cur().CalleeFunc(call)
 				if cf == nil {
 					return nil
 				}
+				if _, r := runners[cf]; !r {
+					if _, r2 := inactors[cf]; !r2 && reaches[cf] {
+						seenHelper[cf] = true
+					}
+				}
 				if pi, ok := runners[cf]; ok && pi < len(call.Args) {
-					return []kit.S{addCall(s, "run("+listClass(call.Args[pi])+")")}
+					return []kit.S{addCall(s, "run("+listClass(call.Args[pi], s)+")")}
 				}
 				if pi, ok := inactors[cf]; ok && pi < len(call.Args) {
-					return []kit.S{addCall(s, "inactive("+listClass(call.Args[pi])+")")}
+					return []kit.S{addCall(s, "inactive("+listClass(call.Args[pi], s)+")")}
 				}
 				return nil
 			}
@@ -1289,6 +1430,12 @@ func c13Caller(c *kit.Ctx, m *ruModel, e, k *kit.Func, roles *c13Roles, runners,
 			corr.hook(st)
 			init := kit.NewS().Set("a:ract", ract).Set("a:rchg", rchg)
 			res := g.Run(init, bf.Client())
+			restore()
+			for cf := range seenHelper {
+				if !st.Inlined[cf] && opaque == "" {
+					opaque = fmt.Sprintf("the helper %s, which leads to the action runner, could not be evaluated inline", cf.Name)
+				}
+			}
 			if corr.any() {
 				for _, sx := range sites {
 					sx.ob.Undecided("the action pairing depends on a condition over the evaluator's results that the checker does not interpret: %s", corr.String())
@@ -1324,17 +1471,17 @@ func c13Caller(c *kit.Ctx, m *ruModel, e, k *kit.Func, roles *c13Roles, runners,
 				switch {
 				case sx.bound && rchg == "F":
 					if calls != "" {
-						sx.ob.Violation("witness: %s → %s still executes %s", wit, k.Name, calls).WithPath(res.PathTo(ex))
+						report(sx.ob, res.PathTo(ex), "witness: %s → %s still executes %s", wit, k.Name, calls)
 						sx.bad = true
 					}
 				case sx.bound:
 					if calls != want {
-						sx.ob.Violation("witness: %s → %s executes {%s}, expected {%s}", wit, k.Name, calls, want).WithPath(res.PathTo(ex))
+						report(sx.ob, res.PathTo(ex), "witness: %s → %s executes {%s}, expected {%s}", wit, k.Name, calls, want)
 						sx.bad = true
 					}
 				default:
 					if calls != "" && calls != want {
-						sx.ob.Violation("witness: %s → %s executes {%s}, expected {%s}", wit, k.Name, calls, want).WithPath(res.PathTo(ex))
+						report(sx.ob, res.PathTo(ex), "witness: %s → %s executes {%s}, expected {%s}", wit, k.Name, calls, want)
 						sx.bad = true
 					}
 				}
